@@ -48,7 +48,7 @@ var alphabet = []string{"a", "task", "_", "é", "日", "1", " ", "\t", "\n", "\r
 
 // further symbols, used where the number of combinations allows (strings of length <= 2 at top level and inside the contexts, mutations):
 // a byte order mark, Unicode spaces outside Latin-1, NEL, letters whose last UTF-8 byte is 0x85 / 0xA0, and those two bytes on their own
-var extAlphabet = append(append([]string{}, alphabet...), "\ufeff", "\u3000", "\u2028", "\u0085", "à", "х", "\xa0", "\x85")
+var extAlphabet = append(append([]string{}, alphabet...), "\ufeff", "\u3000", "\u2028", "\u0085", "à", "х", "\xa0", "\x85", "\ufffd", "Р", "\u200b")
 
 func hx(s string) string { return hex.EncodeToString([]byte(s)) }
 
@@ -811,6 +811,14 @@ func syntaxCmd(args []string) error {
 				runImplOnly("long-line(impl only)", "task a() {\n    echo "+long+"\n}\n???")
 				runImplOnly("long-line(impl only)", "A := \""+long+"\"\ntask b( {")
 			}
+			// many tokens from one construct: task bodies of 127..130, 300 and 5000 command lines, 300 arguments, 300 statements
+			for _, n := range []int{127, 128, 129, 130, 300, 5000} {
+				body := strings.Repeat("    echo hi\n", n)
+				runImplOnly("many-tokens(impl only)", "task a() {\n"+body+"}\n")
+				runImplOnly("many-tokens(impl only)", "task a() {\n"+body+"}\ntask b( {")
+			}
+			runImplOnly("many-tokens(impl only)", "task a("+strings.Repeat("\"f.txt\", ", 300)+"\"g\") {\n    x\n}\n")
+			runImplOnly("many-tokens(impl only)", strings.Repeat("A := \"b\"\n# c\n", 300)+"???")
 		}
 		// (c) seeded random programs, each with a random prefix (truncation)
 		r := rand.New(rand.NewSource(*seed*1000003 + int64(*shard)))
